@@ -16,6 +16,7 @@ import (
 	"encoding/binary"
 	"encoding/hex"
 	"fmt"
+	"math/big"
 	"reflect"
 	"strconv"
 	"strings"
@@ -132,7 +133,10 @@ func c12Token(w []string) string {
 		issued = nil
 	} else {
 		res = "gen:ok " + tohex(issued) + " expok"
-		aux = append(aux, fmt.Sprintf("t0=%d t1=%d exp=%d", t0, t1, expires.UnixNano()))
+		// UnixNano() overflows beyond the years 1678..2262
+		expNs := new(big.Int).Mul(big.NewInt(expires.Unix()), big.NewInt(1000000000))
+		expNs.Add(expNs, big.NewInt(int64(expires.Nanosecond())))
+		aux = append(aux, fmt.Sprintf("t0=%d t1=%d exp=%s", t0, t1, expNs.String()))
 		addMac(key, issued)
 	}
 	// verifying authenticator
